@@ -13,11 +13,11 @@ ASSUME = ["subsets of the 4x4 lattice with <= 5 (quick) / 6 (thorough) points an
 
 def check(tier, seed, t0):
     if tier == "quick":
-        runs = [dict(name="k3", module="Gen_Hull", constants=dict(K=3, MaxN=5, Stride=1, Offset=0), invariants=["HullOK"]),
-                dict(name="k4", module="Gen_Hull", constants=dict(K=4, MaxN=4, Stride=2, Offset=seed % 2), invariants=["HullOK"])]
+        runs = [dict(name="k3", module="Gen_Hull", constants=dict(K=3, MaxN=5, Stride=1, Offset=0, BigK="{4, 7, 16}"), invariants=["HullOK", "BigOK"]),
+                dict(name="k4", module="Gen_Hull", constants=dict(K=4, MaxN=4, Stride=2, Offset=seed % 2, BigK="{}"), invariants=["HullOK"])]
     else:
-        runs = [dict(name="k3", module="Gen_Hull", constants=dict(K=3, MaxN=7, Stride=1, Offset=0), invariants=["HullOK"], timeout=3000),
-                dict(name="k4", module="Gen_Hull", constants=dict(K=4, MaxN=5, Stride=1, Offset=0), invariants=["HullOK"], timeout=3000)]
+        runs = [dict(name="k3", module="Gen_Hull", constants=dict(K=3, MaxN=7, Stride=1, Offset=0, BigK="{4, 5, 7, 12, 16, 24}"), invariants=["HullOK", "BigOK"], timeout=3000),
+                dict(name="k4", module="Gen_Hull", constants=dict(K=4, MaxN=5, Stride=1, Offset=0, BigK="{}"), invariants=["HullOK"], timeout=3000)]
     vf.simple_check("C08", tier, seed, t0, runs, RULE, ASSUME,
                     nontrivial=lambda c: not c["degenerate"] and len(c["ring"]) - 1 < len(c["pts"]))
 
